@@ -219,9 +219,9 @@ Proof.
   destruct (codeword c); split; intros [A B]; split; try assumption; try discriminate; congruence.
 Qed.
 
-Lemma in_chars126 : forall c, cchar c -> In c chars126.
+Lemma in_chars_all : forall c, cchar c -> In c chars_all.
 Proof.
-  intros c [H0 H1]. unfold chars126.
+  intros c [H0 H1]. unfold chars_all.
   replace c with (N.of_nat (N.to_nat c)) by apply N2Nat.id.
   apply in_map. apply in_seq. lia.
 Qed.
@@ -252,8 +252,8 @@ Lemma prefix_code_spec : prefix_code_ok tbl = true ->
   forall c1 c2, printable c1 -> printable c2 -> is_prefix (codeword c1) (codeword c2) = true -> c1 = c2.
 Proof.
   intros H c1 c2 P1 P2 Hp. unfold prefix_code_ok in H.
-  rewrite forallb_forall in H. specialize (H c1 (in_chars126 c1 (proj1 P1))).
-  rewrite forallb_forall in H. specialize (H c2 (in_chars126 c2 (proj1 P2))).
+  rewrite forallb_forall in H. specialize (H c1 (in_chars_all c1 (proj1 P1))).
+  rewrite forallb_forall in H. specialize (H c2 (in_chars_all c2 (proj1 P2))).
   apply printable_b in P1, P2. rewrite P1, P2, Hp in H. cbn in H. apply N.eqb_eq. exact H.
 Qed.
 
@@ -329,13 +329,13 @@ Qed.
 
 (* identifier characters *)
 Lemma tbl_wf_row : tbl_wf tbl = true -> forall ch w, In (ch, w) tbl ->
-  cchar ch /\ is_alnum ch = false /\ Forall (fun x => is_idchar x = true) w /\ Forall (fun x => is_digit x = false) w.
+  rowcharb ch = true /\ is_alnum ch = false /\ Forall (fun x => is_idchar x = true) w /\ Forall (fun x => is_digit x = false) w.
 Proof.
   intros H ch w Hin. unfold tbl_wf in H. rewrite forallb_forall in H. specialize (H _ Hin). cbn beta iota in H.
   apply andb_true_iff in H. destruct H as [H HD].
   apply andb_true_iff in H. destruct H as [H HC].
   apply andb_true_iff in H. destruct H as [HA HB].
-  split; [apply cchar_b; exact HA|]. split; [destruct (is_alnum ch); [discriminate|reflexivity]|]. split.
+  split; [exact HA|]. split; [destruct (is_alnum ch); [discriminate|reflexivity]|]. split.
   - apply Forall_forall. intros x Hx. rewrite forallb_forall in HC. apply HC. exact Hx.
   - apply Forall_forall. intros x Hx. rewrite forallb_forall in HD. specialize (HD _ Hx).
     destruct (is_digit x); [discriminate|reflexivity].
@@ -561,15 +561,20 @@ Proof.
   rewrite FD. cbn [app].
   assert (V : valid_id idlen 0 t = enc t) by (apply valid_id_fits; lia).
   rewrite V.
-  assert (B0 : match t with
-               | [a] => if is_alpha a then [a] else enc t
-               | _ => enc t end = enc t).
-  { destruct t as [|a [|a' t']]; try reflexivity.
-    destruct (is_alpha a) eqn:A; [|reflexivity].
-    cbn [Model.enc flat_map]. rewrite app_nil_r. symmetry. apply (codeword_alnum W).
+  assert (A1 : forall a, is_alpha a = true -> [a] = enc [a]).
+  { intros a A. cbn [Model.enc flat_map]. rewrite app_nil_r. symmetry. apply (codeword_alnum W).
     unfold is_alnum. rewrite A. reflexivity. }
-  Show. rewrite B0. destruct b as [|c b]; [rewrite app_nil_r; reflexivity|].
-  rewrite <- app_assoc. reflexivity.
+  assert (K : forall x : str, match b with
+              | [] => x ++ puti i
+              | _ :: _ => (x ++ puti i) ++ [95] ++ valid_id idlen (len (x ++ puti i) + 1) b end =
+              x ++ puti i ++ match b with [] => [] | _ => 95 :: valid_id idlen (len (x ++ puti i) + 1) b end).
+  { intros x. destruct b as [|c b]; [rewrite app_nil_r; reflexivity|]. rewrite <- app_assoc. reflexivity. }
+  destruct t as [|a [|a' t']].
+  - congruence.
+  - destruct (is_alpha a) eqn:A.
+    + rewrite <- (A1 a A). apply (K [a]).
+    + apply K.
+  - apply K.
 Qed.
 
 Lemma local_names_inj : prefix_code_ok tbl = true -> tbl_wf tbl = true ->
@@ -662,6 +667,51 @@ Proof.
     destruct (puti i) as [|d r]; [congruence|]. inversion PD as [|? ? Hd _]; subst.
     specialize (K d). rewrite Hd in K. cbn in K.
     assert (false = true); [|discriminate]. apply K. apply in_or_app. right. left. reflexivity.
+Qed.
+
+(* ------------------------------------------------------------------ a local name is never a global name *)
+
+Lemma enc_alpha : tbl_wf tbl = true -> forall t, Forall (fun c => is_alpha c = true) t -> enc t = t.
+Proof.
+  intros W. induction t as [|c t IH]; intros F; [reflexivity|].
+  inversion F as [|? ? A F']; subst. cbn [Model.enc flat_map]. fold (enc t).
+  rewrite (codeword_alnum W c) by (unfold is_alnum; rewrite A; reflexivity).
+  rewrite (IH F'). reflexivity.
+Qed.
+
+Lemma digit_not_95 : forall d, is_digit d = true -> d <> 95.
+Proof. intros d H. unfold is_digit in H. lia. Qed.
+
+Lemma digit_not_71 : forall d, is_digit d = true -> d <> 71.
+Proof. intros d H. unfold is_digit in H. lia. Qed.
+
+Lemma alpha_not_95 : forall c, is_alpha c = true -> c <> 95.
+Proof. intros c H. unfold is_alpha, is_upper, is_lower in H. lia. Qed.
+
+Lemma local_global_neq : tbl_wf tbl = true ->
+  forall idlen idhash idlen' idhash' t i b a j s,
+  tag_okb tbl idlen t = true -> Forall (fun c => is_alpha c = true) t -> global_tag a ->
+  mult_var_id idlen idhash t i b <> mult_var_id idlen' idhash' a j s.
+Proof.
+  intros W idlen idhash idlen' idhash' t i b a j s T A G H.
+  rewrite (local_form W idlen idhash t i b T), (global_form idlen' idhash' a j s G) in H.
+  rewrite (enc_alpha W t A) in H.
+  destruct (tag_okb_spec idlen t T) as (NE & _ & _ & _ & NG).
+  pose proof (puti_digits i) as PD. pose proof (puti_nonempty i) as PN.
+  destruct (puti i) as [|d r]; [congruence|]. inversion PD as [|? ? Hd _]; subst.
+  apply orb_false_iff in NG. destruct NG as [NG NpG].
+  destruct G as [-> | ->].
+  - destruct t as [|c [|c' t']]; [congruence| |].
+    + cbn [app] in H. injection H as Hc Hd'. apply (digit_not_95 d Hd). exact Hd'.
+    + cbn [app] in H. injection H as Hc Hc' Hrest.
+      pose proof (Forall_inv (Forall_inv_tail A)) as Ac'. cbn beta in Ac'.
+      apply (alpha_not_95 c' Ac'). exact Hc'.
+  - destruct t as [|c [|c' [|c'' t'']]]; [congruence| | |].
+    + cbn [app] in H. injection H as Hc Hd'. apply (digit_not_71 d Hd). exact Hd'.
+    + cbn [app] in H. injection H as Hc Hc' Hd'. apply (digit_not_95 d Hd). exact Hd'.
+    + cbn [app] in H. injection H as Hc Hc' Hc'' Hrest.
+      pose proof (Forall_inv (Forall_inv_tail (Forall_inv_tail A))) as Ac''. cbn beta in Ac''.
+      apply (alpha_not_95 c'' Ac''). exact Hc''.
 Qed.
 
 End EncFacts.
